@@ -356,7 +356,7 @@ class SymDomain(BaseDomain):
         self.np = self._make_np()
         self.quaternion = self._make_quaternion()
         self.sparse = self._make_sparse()
-        self.scipy_linalg = Namespace("scipy.linalg", qr=self.la_qr, solve_triangular=self.la_solve_triangular, solve=self.la_solve,
+        self.scipy_linalg = Namespace("scipy.linalg", qr=self.la_qr, solve_triangular=self.la_solve_triangular, solve=self.la_solve, hessenberg=self.la_hessenberg,
                                       cholesky=self.la_cholesky_scipy, svd=self.la_svd, eigh=self.la_eigh, pinv=self.la_pinv,
                                       norm=self.la_norm, LinAlgError=np.linalg.LinAlgError)
         self.events = []
@@ -1293,6 +1293,19 @@ class SymDomain(BaseDomain):
         self.events.append(("solve", t, a, b))
         return labelled(f"solve{t}.X", (a.shape[1],) + tuple(b.shape[1:]))
 
+    def la_hessenberg(self, a, calc_q=False, **k):
+        """scipy.linalg.hessenberg: A = Q H Q^T.  Q is a matrix of fresh generic real symbols and H is DEFINED as Q^T A Q (exact,
+        no orthogonality assumed) - the documented relation between the outputs is all a caller may rely on."""
+        kw_strict(k, "hessenberg")
+        a = wrap(a)
+        n = a.shape[0]
+        t = self.fresh("hess")
+        Q = sym_real(f"hessQ{t}_", (n, n))
+        Q._dt = None
+        H = self.matmul(self.matmul(SymArr(np.asarray(Q, dtype=object).T, "real"), a), Q)
+        self.events.append(("hessenberg", t, a, calc_q))
+        return (H, Q) if calc_q else H
+
     def la_solve_triangular(self, a, b, **k):
         a, b = wrap(a), wrap(b)
         t = self.fresh("trsolve")
@@ -1565,6 +1578,10 @@ class SymDomain(BaseDomain):
             return getattr(obj, attr)
         if isinstance(obj, SymArr):
             return self.arr_attr(obj, attr, node, interp)
+        if isinstance(obj, np.ndarray) and obj.dtype != object and attr in (
+                "shape", "size", "ndim", "T", "tolist", "any", "all", "sum", "min", "max", "copy", "astype", "reshape", "ravel",
+                "flatten", "item", "dtype", "nonzero", "argmax", "argmin", "cumsum"):
+            return getattr(obj, attr)       # concrete (index / boolean) arrays: numpy itself
         if isinstance(obj, (Poly, SQ, SC, NQ)):
             if attr in ("w", "x", "y", "z", "real", "imag", "conj", "conjugate", "abs", "norm", "inverse", "sqrt"):
                 if isinstance(obj, Poly) and attr in ("w", "x", "y", "z"):
@@ -1634,6 +1651,8 @@ class SymDomain(BaseDomain):
                     r = with_dt(r.copy() if r is a else r, None)
                 return r
             return astype
+        if attr == "mean":
+            return lambda axis=None, **k: self.np_mean(a, axis=axis, **k)
         if attr == "all":
             return lambda axis=None, **k: self.np_all(a, axis=axis, **k)
         if attr == "any":
